@@ -149,4 +149,9 @@ theorem fixed_keeps_leading_dotdot :
     normalizedText (sb [46, 46, 47, 105, 110, 99, 47, 97, 46, 104]) = sb [46, 46, 47, 105, 110, 99, 47, 97, 46, 104] :=
   RecM.fixed_keeps_leading_dotdot
 
+/-- the three patterns and the overlap length of the finder model are the ones of util.rs **as it is now** (regenerated) -/
+theorem finder_patterns_are_source_patterns :
+    TM.patTimestamp = GenC.patTimestamp ∧ TM.patTime = GenC.patTime ∧ TM.patDate = GenC.patDate ∧ TM.maxHay = GenC.maxHaystackLen :=
+  TM.patterns_match_source
+
 end C04
